@@ -212,3 +212,14 @@ Theorem C14_sma_pow2_binary64 : forall k p s xs xs', sma_new FOps p = Ok s -> Fo
 Proof. exact sma_pow2_covariant. Qed.
 Example C14_sma_run_ok_example : exists s, sma_new FOps 2 = Ok s /\ sma_run_ok 3 s [1.5%float] /\ scaled 3 1.5%float 12%float.
 Proof. exact sma_run_ok_example. Qed.
+
+(* ... and for whole streams of ExponentialMovingAverage (the smoothing factor and 1 - k are dimensionless: the same floats in both runs) *)
+From TA Require Import Proofs.FloatScaleEma.
+Theorem C14_ema_stream_pow2_binary64 : forall k xs xs' s s', rel_ema k s s' -> Forall2 (scaled k) xs xs' -> ema_run_ok k s xs ->
+  Forall2 (scaled k) (ema_outs FOps s xs) (ema_outs FOps s' xs').
+Proof. exact ema_stream_pow2. Qed.
+Theorem C14_ema_pow2_binary64 : forall k p s xs xs', ema_new FOps p = Ok s -> Forall2 (scaled k) xs xs' -> ema_run_ok k s xs ->
+  Forall2 (scaled k) (ema_outs FOps s xs) (ema_outs FOps s xs').
+Proof. exact ema_pow2_covariant. Qed.
+Example C14_ema_run_ok_example : exists s, ema_new FOps 1 = Ok s /\ ema_run_ok 3 s [1.5%float; 2.5%float].
+Proof. exact ema_run_ok_example. Qed.
